@@ -16,7 +16,9 @@ BASE := -std=gnu11 -g -fno-omit-frame-pointer -fopenmp -w
 
 ifeq ($(V),asan)
   VFLAGS := -O2 -fsanitize=address
-  LFLAGS := -fsanitize=address
+  # library objects only: indexes into fixed-size arrays are checked too (ASan cannot see an overflow that stays inside a struct)
+  REPO_XFLAGS := -fsanitize=bounds -fno-sanitize-recover=bounds
+  LFLAGS := -fsanitize=address -fsanitize=bounds
 else ifeq ($(V),fast2)
   VFLAGS := -O2
   LFLAGS := -rdynamic
@@ -84,7 +86,7 @@ objs: $(REPO_OBJS)
 
 $(B)/repo/%.o: $(REPO)/%.c
 	@mkdir -p $(dir $@)
-	$(CC) $(BASE) $(VFLAGS) $(DEFS) $(INCS) $(ISA) -MMD -MP -c $< -o $@
+	$(CC) $(BASE) $(VFLAGS) $(REPO_XFLAGS) $(DEFS) $(INCS) $(ISA) -MMD -MP -c $< -o $@
 
 $(B)/verif/%.o: %.c
 	@mkdir -p $(dir $@)
